@@ -373,12 +373,20 @@ def barrier_env(b):
   return nexus, con, dpid, cs, h, has_barrier, bx
 
 
+class SockFlag(object):
+  """the connection's socket as far as a handler could touch it: close() is remembered"""
+  def close(self):
+    self.closed = True
+
+
 @unit(P, target=OF + "HandshakeOpenFlowHandlers.handle_BARRIER_REPLY")
 def barrier_reply_finishes_only_for_the_barriers_xid(b):
   nexus, con, dpid, cs, h, has_barrier, bx = barrier_env(b)
   xid = b.int("xid", 0, 0xffffffff)
   msg = b.new(of.ofp_barrier_reply)
   b.set(msg, "_xid", xid)
+  sock = b.raw_new(SockFlag, closed=False)
+  b.set(con, "sock", sock)
   fin = lambda: [e for e in log(b) if e[0] == "finish"]
   dis = lambda: [e for e in log(b) if e[0] == "disconnect"]
   return Case(HandshakeOpenFlowHandlers.handle_BARRIER_REPLY, [h, con, msg], calls=cs, raises={}, ensures={
@@ -386,6 +394,10 @@ def barrier_reply_finishes_only_for_the_barriers_xid(b):
     "matching_reply_finishes_once": lambda res: not (has_barrier and xid == bx) or (len(fin()) == 1 and fin()[0][1] is con and len(dis()) == 0),
     "foreign_reply_aborts_without_announcing":
       lambda res: not (has_barrier and xid != bx) or (len(fin()) == 0 and len(dis()) == 1 and dis()[0][2] is None),
+    # closing the SOCKET is the I/O loop's business (it takes the connection out of its select set when read() reports the end);
+    # a handler that closes it leaves a dead descriptor in that set - select() then fails for every connection (sixth round,
+    # 2026-09-25: a seeded change called con.close() instead of con.disconnect() here)
+    "a_handler_never_closes_the_socket_itself": lambda res: sock.closed is False,
   })
 
 
